@@ -124,3 +124,28 @@ func joinNote(a, b string) string {
 	}
 	return a + "," + b
 }
+
+// AttachInterleave lets the ENVIRONMENT act in the middle of a reconcile: before any API or provider call of the code
+// under test, one event of a fixed, named menu may happen (a keyed choice point "env@<call>", one deviation). names is the
+// static superset of event names of the scenario; fire(name) performs the event if it is currently enabled and reports
+// whether it was. Calls the event itself makes are neither logged nor choice points.
+func (w *World) AttachInterleave(run *explore.Run, names []string, fire func(name, before string) bool) {
+	if len(names) == 0 {
+		return
+	}
+	in := false
+	w.Client.Sched = func(label string) {
+		if in {
+			return
+		}
+		k := run.ChooseKeyed("env@"+label, len(names)+1)
+		if k == 0 {
+			return
+		}
+		in = true
+		defer func() { in = false }()
+		w.Client.Quiet++
+		fire(names[k-1], label)
+		w.Client.Quiet--
+	}
+}
